@@ -472,6 +472,8 @@ def gen_segwit_rt(tier, seed):
 
 def run_segwit_rt(case):
     from buidl.bech32 import decode_bech32, encode_bech32_checksum
+    from buidl.script import address_to_script_pubkey
+    from buidl.tx import TxOut
 
     res = Res()
     v, n, net = case["ver"], case["n"], case["network"]
@@ -509,6 +511,30 @@ def run_segwit_rt(case):
         vio(res, f"decode/{vcls}/{'regtest' if net == 'regtest' else 'bc-tb'}", "segwit-rt", case, dec, exp, "decode_bech32 does not invert the reference encoding")
     else:
         res.ok("decode==(network,version,program)" + tag, key)
+    # address-level decoders may refuse witness programs they have no template for, but an address they
+    # accept must be converted to the scriptPubKey it encodes (otherwise two addresses share one script)
+    if bip_valid:
+        for nm, fn in (
+            ("address_to_script_pubkey", lambda a: address_to_script_pubkey(a).raw_serialize()),
+            ("TxOut.to_address", lambda a: TxOut.to_address(a, 1).script_pubkey.raw_serialize()),
+        ):
+            r = attempt(fn, want)
+            if isinstance(r, Rejected):
+                res.ok(f"{nm}: not accepted")
+            elif r != spk:
+                vio(res, f"address-level/{nm}/wrong-script/{vcls}", "segwit-rt", case, {"addr": want, "script": r}, spk,
+                    f"{nm} accepts a valid segwit address but returns a scriptPubKey other than the one the address encodes")
+            else:
+                res.ok(f"{nm}: script == encoded witness program", (nm,) + key)
+    # the same data with the other checksum constant (Bech32m for v0, Bech32 for v1..16) must not decode
+    other = R.bech_encode(hrp, [v] + R.regroup(prog, 8, 5, True), R.BECH32M_CONST if v == 0 else R.BECH32_CONST)
+    assert other != want and not R.segwit_valid(hrp, other, strict_v0=False)
+    r = attempt(decode_bech32, other)
+    if not rej(r):
+        vio(res, f"wrong-constant-accepted/{vcls}", "segwit-rt", case, {"addr": other, "returned": r}, "rejected",
+            "decode_bech32 accepts a version-0 address with the Bech32m constant / a version-1..16 address with the Bech32 constant")
+    else:
+        res.ok("other-constant address rejected", key)
     return res
 
 
@@ -559,6 +585,8 @@ def run_templates(case):
         want = R.address(t, h, net)
         assert R.address_decode(want, net) == (t, h)
         fam = "segwit" if t in ("p2wpkh", "p2wsh", "p2tr") else "base58"
+        # fingerprint class: what actually distinguishes networks in the text form (HRP, or the version-byte family)
+        netcls = R.NETWORKS[net][0] if fam == "segwit" else ("mainnet" if net == "mainnet" else "testnets")
         key = (t, net, kind)
         # script -> address
         obj = attempt(classes[t], h)
@@ -580,7 +608,7 @@ def run_templates(case):
             res.ok("parse(spk).address==ref")
         # address -> script (two entry points)
         back = attempt(bs.address_to_script_pubkey, want)
-        ob = attempt(lambda: (type(back).__name__, back.raw_serialize()))
+        ob = back if isinstance(back, Rejected) else attempt(lambda: (type(back).__name__, back.raw_serialize()))
         if ob != (classes[t].__name__, spk):
             vio(res, f"address_to_script_pubkey/{fam}/{netcls}", "templates", case, {"addr": want, "got": ob}, (classes[t].__name__, spk),
                 "address_to_script_pubkey does not return the scriptPubKey the address encodes")
@@ -588,12 +616,25 @@ def run_templates(case):
             res.ok("address_to_script_pubkey==spk", key)
         amount = 1 + (len(kind) * 7919) % 100000
         to = attempt(TxOut.to_address, want, amount)
-        ob = attempt(lambda: (to.amount, type(to.script_pubkey).__name__, to.script_pubkey.raw_serialize()))
+        ob = to if isinstance(to, Rejected) else attempt(lambda: (to.amount, type(to.script_pubkey).__name__, to.script_pubkey.raw_serialize()))
         if ob != (amount, classes[t].__name__, spk):
             vio(res, f"to_address/{fam}/{netcls}", "templates", case, {"addr": want, "got": ob}, (amount, classes[t].__name__, spk),
                 "TxOut.to_address does not produce the scriptPubKey the address encodes (address() produced this address)")
         else:
             res.ok("TxOut.to_address==spk", key)
+        # the same witness program under the other checksum constant is not an address
+        if fam == "segwit":
+            hrp = R.NETWORKS[net][0]
+            ver = 1 if t == "p2tr" else 0
+            other = R.bech_encode(hrp, [ver] + R.regroup(h, 8, 5, True), R.BECH32_CONST if ver else R.BECH32M_CONST)
+            assert R.address_decode(other, net) is None
+            for nm, fn in (("address_to_script_pubkey", bs.address_to_script_pubkey), ("TxOut.to_address", lambda a: TxOut.to_address(a, 1))):
+                r = attempt(fn, other)
+                if not rej(r):
+                    vio(res, f"wrong-constant-accepted/{nm}/{'v1' if ver else 'v0'}", "templates", case, {"addr": other, "returned": repr(r)}, "rejected",
+                        f"{nm} accepts a segwit address whose checksum uses the constant of the other encoding")
+                else:
+                    res.ok("other-constant address rejected")
         # nested form: the P2SH address of a witness program
         if t in ("p2wpkh", "p2wsh"):
             import hashlib
@@ -674,7 +715,8 @@ def run_segwit_sub(case):
     if standard:
         apis.append(("address_to_script_pubkey", address_to_script_pubkey))
         apis1 = apis + [("TxOut.to_address", lambda s: TxOut.to_address(s, 1))]
-    apis2 = apis1 if tier == "thorough" else apis
+    # doubles: thorough runs every decoder; quick runs decode_bech32 everywhere and the address-level decoders on the mainnet P2WPKH address
+    apis2 = apis1 if (tier == "thorough" or name == "bc-v0-20") else apis[:1]
     if i == 0:
         got = attempt(decode_bech32, addr)
         exp = [{"bc": "mainnet", "tb": "testnet", "bcrt": "regtest"}[hrp], ver, prog]
